@@ -72,7 +72,8 @@ def entries():
             if r < 0.6:
                 kw["axis"] = _axis(rng, len(s), allow_none=False)
             elif r < 0.75 and axis_tuple and len(s) >= 2:
-                kw["axis"] = tuple(sorted(rng.sample(range(len(s)), 2)))
+                axes = rng.sample(range(len(s)), rng.randint(2, len(s)))      # any order, negative entries too
+                kw["axis"] = tuple(a - len(s) if rng.random() < 0.5 else a for a in axes)
             if kw_keepdims and rng.random() < 0.3:
                 kw["keepdims"] = True
             return (mk(s),), kw
